@@ -196,7 +196,13 @@ pub fn drive_cmd(args: &[String]) {
     let mut f = std::io::BufWriter::new(std::fs::File::create(&outp).expect("create trace"));
     let mut events = 0usize;
     let mut i = 0;
-    while events < n && i < 20 * n {
+    if kind == "pscalar" {
+        // portable scalars: one event per drawn pair of values, judged by spec/TracePortable.tla
+        while events < n {
+            emit(&mut f, crate::portable::drive_pscalar(&mut rng), &mut events);
+        }
+    }
+    while kind != "pscalar" && events < n && i < 20 * n {
         i += 1;
         let id = types[rng.below(types.len())].clone();
         let known = dispatch(&id, Drv { kind: &kind, rng: &mut rng, out: &mut f, steps, id: &id, arena: &arena, events: &mut events });
